@@ -1,6 +1,10 @@
 import Heph.Spec.Typing
 import Heph.Model.CondType
 import Heph.Model.GenVar
+import Heph.Model.GenFuncRef
+import Heph.Model.GenNew
+import Heph.Model.GenMatch
+import Heph.Model.GenSig
 import Heph.Props.C06
 import Heph.Proofs.CheckSound
 import Heph.Proofs.CheckSubD
@@ -359,6 +363,643 @@ example :
       = ["a", "b"] ∧
     (genVariableCandidates [] [⟨"a", longK, true, true⟩, ⟨"b", floatK, false, true⟩] floatK false false).map (·.name)
       = ["b"] := by
+  decide
+
+/-! ## 5. Decision points `_is_sigtype_compatible`, `_gen_func_call_ref`, `_gen_func_ref`:
+       which declarations and variables of function type may be referenced -/
+
+private theorem ofBool_yes (b : Bool) : Res.ofBool b = .yes ↔ b = true := by
+  cases b <;> simp [Res.ofBool]
+
+/-- **what a yes of `_is_sigtype_compatible` means**, branch by branch: the attribute type under
+    the type-variable map is `is_assignable` to the expected type (`subtype`), `==` to it (no
+    `subtype`), or — when a signature is checked — the expected type `==` the function type built
+    from the substituted parameter types and the attribute type. -/
+theorem sigtypeCompatible_sound (extra : List (String × String)) (a : AttrSig) (etype : Ty) (m : TMap)
+    (checkSig sub : Bool) (mode : AttrMode) (h : sigtypeCompatible extra a etype m checkSig sub mode = .yes) :
+    ∃ aty, attrTypeOf mode a m = some aty ∧
+      (checkSig = false → sub = true → isAssignable extra aty etype = .yes) ∧
+      (checkSig = false → sub = false → beq aty etype = true) ∧
+      (checkSig = true → beq etype (mkP a.fnCon (a.params.map (fun p => substituteType p m) ++ [aty])) = true) := by
+  unfold sigtypeCompatible at h
+  cases hat : attrTypeOf mode a m with
+  | none => rw [hat] at h; cases h
+  | some aty =>
+    rw [hat] at h
+    refine ⟨aty, rfl, ?_, ?_, ?_⟩
+    · intro hc hs; subst hc; subst hs; simpa using h
+    · intro hc hs; subst hc; subst hs; exact (ofBool_yes _).1 (by simpa using h)
+    · intro hc; subst hc; exact (ofBool_yes _).1 (by simpa [sigOf] using h)
+
+/-- in the default mode the attribute type is the declared type under `substitute_type`; in the
+    mode of `_get_matching_objects(func_ref=True, signature=False)` it is the last type argument
+    (the return type) of the substituted function type -/
+theorem attrTypeOf_whole (a : AttrSig) (m : TMap) : attrTypeOf .whole a m = some (substituteType a.ty m) := rfl
+
+theorem attrTypeOf_lastArg (a : AttrSig) (m : TMap) (aty : Ty) (h : attrTypeOf .lastArg a m = some aty) :
+    ∃ nm con args ss, substituteType a.ty m = param nm con args ss ∧ args.getLast? = some aty := by
+  unfold attrTypeOf at h
+  cases hs : substituteType a.ty m <;> simp only [hs, typeArgs, List.getLast?_nil] at h <;> try cases h
+  exact ⟨_, _, _, _, rfl, h⟩
+
+/-- …hence, for well-formed types, an attribute accepted with `subtype` has a type that is a
+    declarative subtype of the expected type (`SubT`, C06), or a pair of the numeric-widening table,
+    or two Java arrays of one primitive element type (`assignable_sound`). -/
+theorem sigtypeCompatible_assignable (extra : List (String × String)) (a : AttrSig) (etype : Ty) (m : TMap)
+    (h : sigtypeCompatible extra a etype m false true .whole = .yes)
+    (hs : wf (substituteType a.ty m) = true) (ht : wf etype = true) :
+    SubT (univ [substituteType a.ty m, etype]) (substituteType a.ty m) etype ∨
+    (∃ c nm nt p ss c' nm' nt' p' ss', substituteType a.ty m = builtin c nm nt p ss ∧
+      etype = builtin c' nm' nt' p' ss' ∧ (c, c') ∈ extra) ∨
+    (∃ nm con x xs ss nm' con' y ys ss', substituteType a.ty m = param nm con (x :: xs) ss ∧
+      etype = param nm' con' (y :: ys) ss' ∧ isJavaArrayCon con = true ∧ isJavaArrayCon con' = true ∧
+      beq x y = true ∧ x.isPrim = true ∧ y.isPrim = true) := by
+  obtain ⟨aty, hat, h1, _, _⟩ := sigtypeCompatible_sound extra a etype m false true .whole h
+  cases hat
+  exact Heph.Props.C06.assignable_sound extra _ etype hs ht (h1 rfl rfl)
+
+/-- **`_gen_func_call_ref`, first stage**: every reference offered without receiver is a variable
+    in scope whose type is a function type and whose return type (last type argument) is
+    `is_assignable` to the expected type (with `subtype`) or `==` to it; inside a Java lambda it is
+    final or local to the lambda. -/
+theorem funcCallRef_sound (extra : List (String × String)) (vars : List VarInfo) (etype : Ty) (sub jl : Bool)
+    (c : FuncRefCand) (h : c ∈ funcCallRefVars extra vars etype sub jl) :
+    ∃ v ∈ vars, c.sig = v.ty ∧ c.name = v.name ∧ c.noReceiver = true ∧ isFunctionType v.ty = true ∧
+      (∃ ret, (typeArgs v.ty).getLast? = some ret ∧
+        ((sub = true ∧ isAssignable extra ret etype = .yes) ∨ beq ret etype = true)) ∧
+      (jl = true → v.final = true ∨ v.outer = false) := by
+  simp only [funcCallRefVars, List.mem_map, List.mem_filter] at h
+  obtain ⟨v, ⟨hv, hk⟩, rfl⟩ := h
+  refine ⟨v, hv, rfl, rfl, rfl, ?_⟩
+  simp only [funcCallRefKeeps, Bool.and_eq_true, Bool.or_eq_true, Bool.not_eq_true'] at hk
+  obtain ⟨⟨hj, hf⟩, hr⟩ := hk
+  refine ⟨hf, ?_, ?_⟩
+  · cases hl : (typeArgs v.ty).getLast? with
+    | none => rw [hl] at hr; cases hr
+    | some ret =>
+      rw [hl] at hr
+      refine ⟨ret, rfl, ?_⟩
+      simp only [Bool.or_eq_true, Bool.and_eq_true] at hr
+      rcases hr with ⟨hs, ha⟩ | hb
+      · exact Or.inl ⟨hs, (res_beq_yes _).1 ha⟩
+      · exact Or.inr hb
+  · intro hj'; subst hj'
+    rcases hj with (hj | hj) | hj
+    · cases hj
+    · exact Or.inl hj
+    · exact Or.inr hj
+
+/-- the list the random choice draws from: the variables when one qualifies, otherwise the
+    objects `_get_matching_objects` found, each with the field's type under the receiver's map -/
+theorem funcCallRef_candidates (extra : List (String × String)) (vars : List VarInfo) (objs : List MatchedObj)
+    (etype : Ty) (sub jl : Bool) (c : FuncRefCand) (h : c ∈ funcCallRefCandidates extra vars objs etype sub jl) :
+    c ∈ funcCallRefVars extra vars etype sub jl ∨
+    (funcCallRefVars extra vars etype sub jl = [] ∧
+      ∃ o ∈ objs, c.sig = substituteType o.attrTy o.inst ∧ c.name = o.name ∧ c.noReceiver = false) := by
+  unfold funcCallRefCandidates at h
+  by_cases he : (funcCallRefVars extra vars etype sub jl).isEmpty = true
+  · simp only [he, if_true, List.mem_map] at h
+    obtain ⟨o, ho, rfl⟩ := h
+    exact Or.inr ⟨List.isEmpty_iff.1 he, o, ho, rfl, rfl, rfl⟩
+  · simp only [he] at h
+    exact Or.inl h
+
+/-- **the refinement checked on every recorded call of `_gen_func_call_ref`**: a returned call is
+    to a member of the list, and its arguments were generated at the parameter types
+    `signature.type_args[:-1]` of that member; `None` is returned only when nothing qualifies -/
+theorem funcCallRef_refines_call (same : List Ty → List Ty → Bool) (extra : List (String × String))
+    (vars : List VarInfo) (objs : List MatchedObj) (etype : Ty) (sub jl : Bool) (n : String) (nr : Bool)
+    (tys : List Ty) (h : funcCallRefRefines same extra vars objs etype sub jl (.call n nr tys) = true) :
+    ∃ c ∈ funcCallRefCandidates extra vars objs etype sub jl,
+      c.name = n ∧ c.noReceiver = nr ∧ same (typeArgs c.sig).dropLast tys = true := by
+  simp only [funcCallRefRefines, List.any_eq_true, Bool.and_eq_true, beq_iff_eq] at h
+  obtain ⟨c, hc, ⟨h1, h2⟩, h3⟩ := h
+  exact ⟨c, hc, h1, h2, h3⟩
+
+theorem funcCallRef_refines_none (same : List Ty → List Ty → Bool) (extra : List (String × String))
+    (vars : List VarInfo) (objs : List MatchedObj) (etype : Ty) (sub jl : Bool)
+    (h : funcCallRefRefines same extra vars objs etype sub jl .none = true) :
+    (∀ v ∈ vars, funcCallRefKeeps extra etype sub jl v = false) ∧ objs = [] := by
+  unfold funcCallRefRefines funcCallRefCandidates at h
+  by_cases he : (funcCallRefVars extra vars etype sub jl).isEmpty = true
+  · simp only [he, if_true, List.isEmpty_iff, List.map_eq_nil_iff] at h
+    refine ⟨?_, h⟩
+    have := List.isEmpty_iff.1 he
+    simp only [funcCallRefVars, List.map_eq_nil_iff, List.filter_eq_nil_iff] at this
+    intro v hv; simpa using this v hv
+  · simp only [he] at h
+    exact absurd h he
+
+/-- **`_gen_func_ref`**: a reference offered for the signature `etype` is one of the declarations
+    `_get_matching_function_declarations(etype, False, signature=True)` handed over, other than the
+    function being generated; since each of those passed `_is_sigtype_compatible(.., True, False)`
+    under its map `σ`, the expected type `==` the function type of its substituted signature. -/
+theorem funcRef_sound (funcs : List AttrSig) (self : String) (etype : Ty) (σ : AttrSig → TMap)
+    (hcompat : ∀ f ∈ funcs, sigtypeCompatible [] f etype (σ f) true false .whole = .yes)
+    (f : AttrSig) (h : f ∈ funcRefCandidates funcs self) :
+    f ∈ funcs ∧ f.name ≠ self ∧
+      beq etype (mkP f.fnCon (f.params.map (fun p => substituteType p (σ f)) ++ [substituteType f.ty (σ f)])) = true := by
+  simp only [funcRefCandidates, List.mem_filter, bne_iff_ne, ne_eq] at h
+  obtain ⟨hf, hn⟩ := h
+  obtain ⟨aty, hat, _, _, h3⟩ := sigtypeCompatible_sound [] f etype (σ f) true false .whole (hcompat f hf)
+  cases hat
+  exact ⟨hf, hn, h3 rfl⟩
+
+private def fn1K : Ty :=
+  tcon "<class 'src.ir.kotlin_types.FunctionType'>" "Function1" [tparam "A1" 2 none, tparam "R" 1 none] [anyK]
+private def stringK : Ty := builtin "<class 'src.ir.kotlin_types.StringType'>" "String" false false [anyK]
+private def tT : Ty := tparam "T" 0 none
+
+/-- the hypotheses are satisfiable and the filters bite: of `f : (Long) -> Float`, `g : (Long) ->
+    String` and `n : Long`, a `Number` position is offered the call `f(..)` only, with one argument
+    expected at `Long`; an exact `Float` position the same; a `String` position `g`; and a function
+    `fun h(x: T): T` matches the signature `(Long) -> Long` under `T ↦ Long` but not under `T ↦ Float` -/
+example :
+    ((funcCallRefCandidates [] [⟨"f", mkP fn1K [longK, floatK], true, true⟩,
+        ⟨"g", mkP fn1K [longK, stringK], true, true⟩, ⟨"n", longK, true, true⟩] [] numK true false).map (·.name)
+      = ["f"]) ∧
+    ((funcCallRefCandidates [] [⟨"f", mkP fn1K [longK, floatK], true, true⟩,
+        ⟨"g", mkP fn1K [longK, stringK], true, true⟩] [] numK false false).map (·.name) = []) ∧
+    ((funcCallRefCandidates [] [⟨"f", mkP fn1K [longK, floatK], true, true⟩,
+        ⟨"g", mkP fn1K [longK, stringK], true, true⟩] [] stringK false false).map (·.name) = ["g"]) ∧
+    funcCallRefRefines (fun a b => beqL a b) [] [⟨"f", mkP fn1K [longK, floatK], true, true⟩] [] numK true false
+      (.call "f" true [longK]) = true ∧
+    sigtypeCompatible [] ⟨"h", tT, [tT], fn1K⟩ (mkP fn1K [longK, longK]) [(tT, longK)] true false .whole = .yes ∧
+    sigtypeCompatible [] ⟨"h", tT, [tT], fn1K⟩ (mkP fn1K [longK, longK]) [(tT, floatK)] true false .whole = .no ∧
+    sigtypeCompatible [] ⟨"fld", mkP fn1K [longK, floatK], [], fn1K⟩ numK [] false true .lastArg = .yes := by
+  decide
+
+/-! ## 6. Decision point `gen_new` (with `_get_subclass`): the class instantiated and the expected
+       types of the constructor arguments -/
+
+/-- **`_get_subclass`**: every class the random choice may draw is a regular class in scope whose
+    type is `==` to the expected type (its constructor, for a generic class) or — with `subtype` —
+    answered yes to the code's own `is_subtype` test against the expected type -/
+theorem subclass_sound (classes : List ClassCand) (etype : Ty) (ename : String) (sub : Bool) (c : ClassCand)
+    (h : c ∈ subclassCandidates classes etype ename sub) :
+    c ∈ classes ∧ c.regular = true ∧
+      ((c.parameterized = false ∧ beq c.ty etype = true) ∨
+       (c.parameterized = true ∧ ∃ tc, tconOf etype = some tc ∧ beq c.ty tc = true) ∨
+       (sub = true ∧ isSubtype c.ty etype = .yes)) := by
+  have hk : c ∈ classes ∧ subclassKeeps etype sub c = true := by
+    unfold subclassCandidates at h
+    simp only [] at h
+    split at h
+    · exact List.mem_filter.1 h
+    · exact List.mem_filter.1 (List.mem_filter.1 h).1
+  obtain ⟨hm, hk⟩ := hk
+  simp only [subclassKeeps, Bool.and_eq_true, Bool.or_eq_true] at hk
+  obtain ⟨hr, hk⟩ := hk
+  refine ⟨hm, hr, ?_⟩
+  rcases hk with hk | ⟨hs, hy⟩
+  · by_cases hp : c.parameterized = true
+    · simp only [hp, if_true] at hk
+      cases ht : tconOf etype with
+      | none => rw [ht] at hk; cases hk
+      | some tc => rw [ht] at hk; exact Or.inr (Or.inl ⟨hp, tc, rfl, hk⟩)
+    · simp only [hp] at hk
+      exact Or.inl ⟨by simpa using hp, hk⟩
+  · exact Or.inr (Or.inr ⟨hs, (res_beq_yes _).1 hy⟩)
+
+/-- a class of the expected type's own name is preferred: when one passed the test, only such
+    classes are offered -/
+theorem subclass_prefers_own (classes : List ClassCand) (etype : Ty) (ename : String) (sub : Bool)
+    (o : ClassCand) (ho : o ∈ classes) (hk : subclassKeeps etype sub o = true) (hn : o.name = ename)
+    (c : ClassCand) (h : c ∈ subclassCandidates classes etype ename sub) : c.name = ename := by
+  unfold subclassCandidates at h
+  simp only [] at h
+  split at h
+  · rename_i he
+    have : o ∈ (classes.filter (subclassKeeps etype sub)).filter fun s => s.name == ename :=
+      List.mem_filter.2 ⟨List.mem_filter.2 ⟨ho, hk⟩, by simpa using hn⟩
+    rw [List.isEmpty_iff.1 he] at this
+    cases this
+  · simpa using (List.mem_filter.1 h).2
+
+/-- what the recorded-call refinement of `_get_subclass` means -/
+theorem subclass_refines_some (classes : List ClassCand) (etype : Ty) (ename : String) (sub : Bool) (n : String)
+    (h : subclassRefines classes etype ename sub (some n) = true) :
+    ∃ c ∈ subclassCandidates classes etype ename sub, c.name = n := by
+  simpa [subclassRefines] using h
+
+theorem subclass_refines_none (classes : List ClassCand) (etype : Ty) (ename : String) (sub : Bool)
+    (h : subclassRefines classes etype ename sub none = true) :
+    ∀ c ∈ classes, subclassKeeps etype sub c = false := by
+  unfold subclassRefines subclassCandidates at h
+  simp only [] at h
+  by_cases he : ((classes.filter (subclassKeeps etype sub)).filter fun s => s.name == ename).isEmpty = true
+  · simp only [he, if_true] at h
+    intro c hc
+    simpa using List.filter_eq_nil_iff.1 (List.isEmpty_iff.1 h) c hc
+  · simp only [he] at h
+    exact absurd h he
+
+private theorem typeParamMap_some (tparams : List Ty) (etype : Ty) (m : TMap) (h : typeParamMap tparams etype = some m) :
+    (tparams = [] ∧ m = []) ∨
+    (tparams ≠ [] ∧ ∃ targs, newTypeArgs etype = some targs ∧ tparams.length ≤ targs.length ∧ m = TMap.mk tparams targs) := by
+  unfold typeParamMap at h
+  by_cases he : tparams.isEmpty = true
+  · simp only [he, if_true, Option.some.injEq] at h
+    exact Or.inl ⟨List.isEmpty_iff.1 he, h.symm⟩
+  · simp only [he] at h
+    refine Or.inr ⟨fun hn => he (List.isEmpty_iff.2 hn), ?_⟩
+    cases ha : newTypeArgs etype with
+    | none => rw [ha] at h; simp at h
+    | some targs =>
+      rw [ha] at h
+      simp only [Bool.false_eq_true, if_false] at h
+      by_cases hl : targs.length < tparams.length
+      · simp [hl] at h
+      · simp only [hl, if_false, Option.some.injEq] at h
+        exact ⟨targs, rfl, by omega, h.symm⟩
+
+/-- **the expected types of the constructor arguments**: when `gen_new` plans `New(ty, args)` the
+    class is known, and either it is not generic — then `ty` is its type and the arguments are
+    expected at the declared field types (under the empty map) — or it is, and there are type
+    arguments `targs` (those of the instantiated expected type) such that `ty` is
+    `class_decl.get_type().new(targs)` and every argument is expected at the field's type under
+    `substitute_type` with the map `{type parameter ↦ type argument}` -/
+theorem newFromClass_expected (c : NewClass) (etype ty : Ty) (exp : List Ty)
+    (h : newFromClass c etype = .new ty exp) :
+    (c.tparams = [] ∧ ty = c.ty ∧ exp = c.fields.map fun f => substituteType f []) ∨
+    (c.tparams ≠ [] ∧ ∃ targs, newTypeArgs etype = some targs ∧ c.tparams.length ≤ targs.length ∧
+      ty = tconNew c.ty targs ∧ exp = c.fields.map fun f => substituteType f (TMap.mk c.tparams targs)) := by
+  unfold newFromClass at h
+  cases hm : typeParamMap c.tparams etype with
+  | none => rw [hm] at h; cases h
+  | some m =>
+    rw [hm] at h
+    simp only [] at h
+    rcases typeParamMap_some _ _ _ hm with ⟨ht, rfl⟩ | ⟨ht, targs, ha, hl, rfl⟩
+    · simp only [ht, List.isEmpty_nil, if_true, NewPlan.new.injEq] at h
+      exact Or.inl ⟨ht, h.1.symm, h.2.symm⟩
+    · have he : c.tparams.isEmpty = false := by
+        cases hh : c.tparams with
+        | nil => exact absurd hh ht
+        | cons _ _ => rfl
+      simp only [he, Bool.false_eq_true, if_false, ha, NewPlan.new.injEq] at h
+      exact Or.inr ⟨ht, targs, ha, hl, h.1.symm, h.2.symm⟩
+
+private theorem newStep1_cases (e1 : Ty) (ename : String) (insts : List Ty) (e2 : Ty) (n2 : String) (rest : List Ty)
+    (h : newStep1 e1 ename insts = some (e2, n2, rest)) :
+    (e2 = e1 ∧ rest = insts) ∨ insts = e2 :: rest := by
+  unfold newStep1 at h
+  by_cases ht : e1.isTCon = true
+  · simp only [ht, if_true] at h
+    cases insts with
+    | nil => cases h
+    | cons i tl => simp only [Option.some.injEq, Prod.mk.injEq] at h; obtain ⟨rfl, _, rfl⟩ := h; exact Or.inr rfl
+  · simp only [ht] at h
+    simp only [Bool.false_eq_true, if_false, Option.some.injEq, Prod.mk.injEq] at h
+    obtain ⟨rfl, _, rfl⟩ := h; exact Or.inl ⟨rfl, rfl⟩
+
+private theorem newWithClass_new (c : NewClass) (e1 : Ty) (ename : String) (insts : List Ty) (ty : Ty) (exp : List Ty)
+    (h : newWithClass c e1 ename insts = .new ty exp) :
+    ∃ e, newFromClass c e = .new ty exp ∧ (e ∈ insts ∨ e = e1) := by
+  unfold newWithClass at h
+  cases hs : newStep1 e1 ename insts with
+  | none => rw [hs] at h; cases h
+  | some p =>
+    obtain ⟨e2, n2, rest⟩ := p
+    rw [hs] at h
+    simp only [] at h
+    have hc := newStep1_cases e1 ename insts e2 n2 rest hs
+    by_cases hg : (!c.tparams.isEmpty && attrName c.ty != n2) = true
+    · simp only [hg, if_true] at h
+      cases rest with
+      | nil => cases h
+      | cons i tl =>
+        simp only [] at h
+        refine ⟨i, h, Or.inl ?_⟩
+        rcases hc with ⟨_, hr⟩ | hr
+        · rw [← hr]; simp
+        · rw [hr]; simp
+    · simp only [hg] at h
+      refine ⟨e2, h, ?_⟩
+      rcases hc with ⟨he, _⟩ | hr
+      · exact Or.inr he
+      · rw [hr]; exact Or.inl (by simp)
+
+/-- the plan `new` of `gen_new` always comes from `newFromClass` for the class `_get_subclass`
+    returned (not blacklisted), applied to the variance-free expected type or to one of the random
+    instantiations -/
+theorem genNew_new (isFn : Bool) (etype : Ty) (ename : String) (cls : Option NewClass) (anyT voidT : Ty)
+    (black tvnames : List String) (insts : List Ty) (ty : Ty) (exp : List Ty)
+    (h : genNewPlan isFn etype ename cls anyT voidT black tvnames insts = .new ty exp) :
+    ∃ c e, cls = some c ∧ black.contains ename = false ∧ newFromClass c e = .new ty exp ∧
+      (e ∈ insts ∨ e = (if etype.isParam then toVarianceFree etype [] else etype)) := by
+  unfold genNewPlan at h
+  by_cases h1 : isFn = true
+  · simp only [h1, if_true] at h; cases h
+  simp only [h1] at h
+  by_cases h2 : beq anyT (if etype.isParam then toVarianceFree etype [] else etype) = true
+  · simp only [h2, if_true] at h; cases h
+  by_cases h3 : beq voidT (if etype.isParam then toVarianceFree etype [] else etype) = true
+  · simp only [h2, h3, if_true] at h; cases h
+  simp only [h2, h3] at h
+  cases cls with
+  | none => simp only [newBottom] at h; cases h
+  | some c =>
+    simp only [] at h
+    by_cases h4 : black.contains ename = true
+    · simp only [h4, if_true, newBottom] at h; cases h
+    · simp only [h4] at h
+      obtain ⟨e, he, hm⟩ := newWithClass_new c _ ename insts ty exp h
+      exact ⟨c, e, rfl, by simpa using h4, he, hm⟩
+
+/-- **the map `gen_new` substitutes with is the instantiation's own map**: for a class whose
+    constructor carries the class's type parameters (`ClassDeclaration.get_type()` builds it from
+    them), `{type parameter ↦ type argument}` is `get_type_variable_assignments()` of the type of
+    the `New` node, whose type arguments are the given ones -/
+theorem genNew_map_is_instantiation (c : NewClass) (targs : List Ty) (hp : conParams c.ty = c.tparams) :
+    TMap.mk c.tparams targs = typeVarAssignments (tconNew c.ty targs) ∧
+      newTypeArgs (tconNew c.ty targs) = some targs := by
+  have hcp : ∀ (con : Ty) (m : TMap) (ss : List Ty), conParams (conWithSups (performSubst con m) ss) = conParams con := by
+    intro con m ss; cases con <;> simp [performSubst, conWithSups, conParams]
+  simp only [tconNew, typeVarAssignments, newTypeArgs, hcp, hp, and_self]
+
+/-- (by C07, `Heph.Props.C01Gen.genNew_expected_substS`, these are the field types under the syntactic
+    substitution of the instantiation) …and these are the types the verified checker demands for the arguments of the `New` node
+    (`wt_new`): a field type that is not itself a projection is read through `sinkType` exactly as
+    `gen_new` substitutes it -/
+theorem genNew_expected_is_sink (lt : LangTypes) (fields : List Ty) (m : TMap)
+    (h : ∀ f ∈ fields, f.isWild = false) :
+    (fields.map fun f => substituteType f m) = fields.map fun f => sinkType lt f m := by
+  apply List.map_congr_left
+  intro f hf
+  have := h f hf
+  cases f <;> simp_all [sinkType, deproj, Ty.isWild]
+
+private def boxC : Ty := tcon "<class 'src.ir.types.TypeConstructor'>" "Box" [tT] [anyK]
+private def clsPlain : Ty := simple "Plain" [anyK]
+
+/-- the hypotheses are satisfiable: for `class Box<T>(val x: T, val n: Number)` and the expected
+    type `Box<out Long>` the plan is `New(Box<Long>, ..)` with the arguments expected at `Long` and
+    `Number`; a bare `Plain` instantiates the generic subclass at the random instantiation handed
+    in; `Any` is `New(Any, [])`; a blacklisted class gives a bottom constant; and `_get_subclass`
+    offers only regular classes -/
+example :
+    (match genNewPlan false (tconNew boxC [wild 1 (some longK)]) "Box" (some ⟨"Box", boxC, [tT], [tT, numK]⟩)
+        anyK stringK [] [] [] with
+     | .new ty exp => beq ty (tconNew boxC [longK]) && beqL exp [longK, numK]
+     | _ => false) = true ∧
+    (match genNewPlan false clsPlain "Plain" (some ⟨"Box", boxC, [tT], [tT, numK]⟩) anyK stringK [] []
+        [tconNew boxC [floatK]] with
+     | .new ty exp => beq ty (tconNew boxC [floatK]) && beqL exp [floatK, numK]
+     | _ => false) = true ∧
+    (match genNewPlan false anyK "Any" none anyK stringK [] [] [] with | .trivial _ => true | _ => false) = true ∧
+    (match genNewPlan false clsPlain "Plain" (some ⟨"Plain", clsPlain, [], []⟩) anyK stringK ["Plain"] [] [] with
+     | .bottom (some _) => true | _ => false) = true ∧
+    (subclassCandidates [⟨"Plain", true, false, clsPlain⟩, ⟨"Iface", false, false, simple "Iface" [anyK]⟩,
+        ⟨"Box", true, true, boxC⟩] anyK "Any" true).map (·.name) = ["Plain", "Box"] ∧
+    (subclassCandidates [⟨"Plain", true, false, clsPlain⟩, ⟨"Box", true, true, boxC⟩]
+        (tconNew boxC [longK]) "Box" false).map (·.name) = ["Box"] := by
+  decide
+
+/-! ## 7. The matching family: `_get_matching_class_decls`, `_get_matching_class`,
+       `_gen_matching_class`, `_get_matching_objects`, `_get_matching_function_declarations` -/
+
+/-- **what `matchedOK` gives the caller**: the attribute's type under the returned maps is
+    `is_assignable` to the expected type (`subtype`), `==` to it, or its signature `==` the
+    expected function type — exactly as the code decides (`sigtypeCompatible_sound`).  The harness
+    evaluates `matchedOK` on every (attribute, maps) the five functions return. -/
+theorem matchedOK_sound (extra : List (String × String)) (a : AttrSig) (etype : Ty) (m : TMap)
+    (checkSig sub : Bool) (mode : AttrMode) (h : matchedOK extra a etype m checkSig sub mode = true) :
+    ∃ aty, attrTypeOf mode a m = some aty ∧
+      (checkSig = false → sub = true → isAssignable extra aty etype = .yes) ∧
+      (checkSig = false → sub = false → beq aty etype = true) ∧
+      (checkSig = true → beq etype (mkP a.fnCon (a.params.map (fun p => substituteType p m) ++ [aty])) = true) :=
+  sigtypeCompatible_sound extra a etype m checkSig sub mode ((res_beq_yes _).1 h)
+
+private theorem classDeclsOf_sound (extra : List (String × String)) (void etype : Ty) (sub signature : Bool)
+    (self cname : String) (attrs : List (Bool × AttrSig)) :
+    ∀ (maps : List (Option TMap)) (out : List (String × AttrSig × TMap)) (left : List (Option TMap)),
+    classDeclsOf extra void etype sub signature self cname attrs maps = some (out, left) →
+    ∀ x ∈ out, x.1 = cname ∧ (∃ h, (h, x.2.1) ∈ attrs ∧ classAttrReached void signature self h x.2.1 = true) ∧
+      matchedOK extra x.2.1 etype x.2.2 signature sub .whole = true := by
+  induction attrs with
+  | nil =>
+    intro maps out left h x hx
+    simp only [classDeclsOf, Option.some.injEq, Prod.mk.injEq] at h
+    obtain ⟨rfl, _⟩ := h
+    cases hx
+  | cons p rest ih =>
+    obtain ⟨hasTy, a⟩ := p
+    intro maps out left h x hx
+    unfold classDeclsOf at h
+    by_cases hr : classAttrReached void signature self hasTy a = true
+    · simp only [hr, if_true] at h
+      cases maps with
+      | nil => cases h
+      | cons m maps' =>
+        simp only [Option.map_eq_some_iff] at h
+        obtain ⟨⟨out', left'⟩, hrec, heq⟩ := h
+        simp only [Prod.mk.injEq] at heq
+        obtain ⟨rfl, rfl⟩ := heq
+        have ih' := ih maps' out' left' hrec
+        have lift : ∀ y ∈ out', y.1 = cname ∧
+            (∃ h, (h, y.2.1) ∈ (hasTy, a) :: rest ∧ classAttrReached void signature self h y.2.1 = true) ∧
+            matchedOK extra y.2.1 etype y.2.2 signature sub .whole = true := by
+          intro y hy
+          obtain ⟨h1, ⟨hh, hm, hreach⟩, h3⟩ := ih' y hy
+          exact ⟨h1, ⟨hh, List.mem_cons_of_mem _ hm, hreach⟩, h3⟩
+        cases m with
+        | none => exact lift x hx
+        | some m =>
+          simp only [] at hx
+          by_cases hk : matchedOK extra a etype m signature sub .whole = true
+          · simp only [hk, if_true, List.mem_cons] at hx
+            rcases hx with rfl | hx
+            · exact ⟨rfl, ⟨hasTy, List.mem_cons_self, hr⟩, hk⟩
+            · exact lift x hx
+          · simp only [hk] at hx
+            exact lift x hx
+    · simp only [hr] at h
+      obtain ⟨h1, ⟨hh, hm, hreach⟩, h3⟩ := ih maps out left h x hx
+      exact ⟨h1, ⟨hh, List.mem_cons_of_mem _ hm, hreach⟩, h3⟩
+
+/-- **`_get_matching_class_decls`**: every (class, attribute, map) the random choice of
+    `_get_matching_class` may draw is an attribute of a class in scope that is typed, not `void`,
+    not the function being generated when a signature is wanted, and fits the expected type under
+    its map (`matchedOK`, unfolded by `matchedOK_sound`) -/
+theorem matchingClassDecls_sound (extra : List (String × String)) (void etype : Ty) (sub signature : Bool)
+    (self : String) (classes : List (String × List (Bool × AttrSig))) :
+    ∀ (maps : List (Option TMap)) (out : List (String × AttrSig × TMap)),
+    matchingClassDecls extra void etype sub signature self classes maps = some out →
+    ∀ x ∈ out, (∃ attrs h, (x.1, attrs) ∈ classes ∧ (h, x.2.1) ∈ attrs ∧
+        classAttrReached void signature self h x.2.1 = true) ∧
+      matchedOK extra x.2.1 etype x.2.2 signature sub .whole = true := by
+  induction classes with
+  | nil =>
+    intro maps out h x hx
+    simp only [matchingClassDecls, Option.some.injEq] at h
+    subst h; cases hx
+  | cons p rest ih =>
+    obtain ⟨cname, attrs⟩ := p
+    intro maps out h x hx
+    unfold matchingClassDecls at h
+    cases hc : classDeclsOf extra void etype sub signature self cname attrs maps with
+    | none => rw [hc] at h; cases h
+    | some q =>
+      obtain ⟨o1, left⟩ := q
+      rw [hc] at h
+      simp only [Option.map_eq_some_iff] at h
+      obtain ⟨more, hrec, rfl⟩ := h
+      rcases List.mem_append.1 hx with hx | hx
+      · obtain ⟨h1, ⟨hh, hm, hreach⟩, h3⟩ := classDeclsOf_sound extra void etype sub signature self cname attrs maps o1 left hc x hx
+        exact ⟨⟨attrs, hh, by rw [h1]; exact List.mem_cons_self, hm, hreach⟩, h3⟩
+      · obtain ⟨⟨as, hh, hm1, hm2, hreach⟩, h3⟩ := ih left more hrec x hx
+        exact ⟨⟨as, hh, List.mem_cons_of_mem _ hm1, hm2, hreach⟩, h3⟩
+
+/-- **`_gen_matching_class`**: the attribute returned is one of the generated class's own
+    attributes and fits the expected type exactly (`subtype` is off) under the instantiation's map;
+    `None` is returned only when no attribute fits -/
+theorem firstCompatible_sound (attrs : List AttrSig) (etype : Ty) (m : TMap) (signature : Bool) (a : AttrSig)
+    (h : firstCompatible attrs etype m signature = some a) :
+    a ∈ attrs ∧ matchedOK [] a etype m signature false .whole = true :=
+  ⟨List.mem_of_find?_eq_some h, by simpa using List.find?_some h⟩
+
+theorem firstCompatible_none (attrs : List AttrSig) (etype : Ty) (m : TMap) (signature : Bool)
+    (h : firstCompatible attrs etype m signature = none) :
+    ∀ a ∈ attrs, matchedOK [] a etype m signature false .whole = false := by
+  intro a ha
+  simpa using List.find?_eq_none.1 h a ha
+
+/-- the hypotheses are satisfiable and the filter bites: of `class Box<T>(val x: T, val n: Number)`
+    and `class Plain(val s: String)`, a `Long` position with `subtype` is offered `Box.x` under
+    `T ↦ Long` only (`Number` is no subtype of `Long`, the unifier map of `n` is empty); the
+    `(False, None)` answer of `_is_signature_compatible` drops an attribute -/
+example :
+    ((matchingClassDecls [] stringK longK true false "f"
+        [("Box", [(true, ⟨"x", tT, [], fn1K⟩), (true, ⟨"n", numK, [], fn1K⟩)]),
+         ("Plain", [(true, ⟨"s", stringK, [], fn1K⟩)])]
+        [some [(tT, longK)], some [], some []]).map fun l => l.map fun x => (x.1, x.2.1.name))
+      = some [("Box", "x")] ∧
+    ((matchingClassDecls [] stringK longK true false "f"
+        [("Box", [(true, ⟨"x", tT, [], fn1K⟩)])] [none]).map fun l => l.length) = some 0 ∧
+    (firstCompatible [⟨"n", numK, [], fn1K⟩, ⟨"x", tT, [], fn1K⟩] longK [(tT, longK)] false).map (·.name)
+      = some "x" := by
+  decide
+
+/-! ## 8. Decision points `_gen_func_from_existing` (overriding signatures) and `_gen_func_call`
+       (expected types of the call arguments) -/
+
+/-- the overriding function keeps the arity of the overridden one -/
+theorem overrideSig_arity (m : TMap) (tpNames : List String) (ren : TMap) (params : List Ty) (ret : Ty) :
+    (overrideSig m tpNames ren params ret).1.length = params.length := by
+  simp [overrideSig]
+
+/-- **each component of an overriding signature** is the overridden component under
+    `substitute_type` with the superclass map restricted to the keys the function's own type
+    parameters do not shadow; when that yields a type `==` to the old one, the renaming of the
+    function's type parameters is applied on top -/
+theorem overrideComponent_spec (m : TMap) (tpNames : List String) (ren : TMap) (old : Ty) :
+    (beq old (substituteType old (restrictMap m tpNames)) = false →
+      overrideComponent m tpNames ren old = substituteType old (restrictMap m tpNames)) ∧
+    (beq old (substituteType old (restrictMap m tpNames)) = true →
+      overrideComponent m tpNames ren old = substituteType (substituteType old (restrictMap m tpNames)) ren) := by
+  constructor <;> intro h <;> simp [overrideComponent, h]
+
+theorem overrideSig_components (m : TMap) (tpNames : List String) (ren : TMap) (params : List Ty) (ret : Ty)
+    (i : Nat) (hi : i < params.length) :
+    (overrideSig m tpNames ren params ret).1[i]? = some (overrideComponent m tpNames ren params[i]) ∧
+    (overrideSig m tpNames ren params ret).2 = overrideComponent m tpNames ren ret := by
+  simp [overrideSig, hi]
+
+/-- the restricted map only has bindings of the superclass map, none for a shadowed name -/
+theorem restrictMap_spec (m : TMap) (tpNames : List String) (p : Ty × Ty) (h : p ∈ restrictMap m tpNames) :
+    p ∈ m ∧ keyName p.1 ∉ tpNames := by
+  simp only [restrictMap, List.mem_filter, Bool.not_eq_true', List.contains_eq_mem, decide_eq_false_iff_not] at h
+  exact h
+
+/-- without type parameters of its own the overriding function's components are exactly the
+    overridden ones under the superclass map (the checker's override obligation compares with
+    these: `overrideObs`) -/
+theorem overrideComponent_plain (m : TMap) (old : Ty) (h : beq old (substituteType old m) = false) :
+    overrideComponent m [] [] old = substituteType old m := by
+  have hr : restrictMap m [] = m := by simp [restrictMap]
+  simp [overrideComponent, hr, h]
+
+/-- **`_gen_func_call`, ordinary parameters**: when the callee has no vararg parameter the
+    arguments are expected, in order, at the parameter types under `substitute_type` with the final
+    `params_map` (receiver map updated with the function's own instantiation) -/
+theorem callArgsExpected_plain (m : TMap) (ps : List CallParam) (counts : List Nat)
+    (h : ∀ p ∈ ps, p.vararg = false) :
+    callArgsExpected m ps counts = some (ps.map fun p => substituteType p.ty m) := by
+  induction ps with
+  | nil => simp [callArgsExpected]
+  | cons p rest ih =>
+    have hp := h p List.mem_cons_self
+    have ih' := ih (fun q hq => h q (List.mem_cons_of_mem _ hq))
+    simp [callArgsExpected, hp, callArgType, ih']
+
+/-- **every expected argument type is a parameter's type under the map** (the element type
+    `type_args[0]` for a vararg parameter) -/
+theorem callArgsExpected_sound (m : TMap) (ps : List CallParam) :
+    ∀ (counts : List Nat) (out : List Ty), callArgsExpected m ps counts = some out →
+      ∀ t ∈ out, ∃ p ∈ ps, callArgType m p = some t := by
+  induction ps with
+  | nil => intro counts out h t ht; simp [callArgsExpected] at h; subst h; cases ht
+  | cons p rest ih =>
+    intro counts out h t ht
+    unfold callArgsExpected at h
+    by_cases hv : p.vararg = true
+    · simp only [hv, if_true] at h
+      cases counts with
+      | nil => cases h
+      | cons k counts' =>
+        simp only [] at h
+        cases hr : callArgsExpected m rest counts' with
+        | none => rw [hr] at h; cases hc : callArgType m p <;> rw [hc] at h <;> cases h
+        | some more =>
+          rw [hr] at h
+          cases hc : callArgType m p with
+          | none =>
+            rw [hc] at h
+            simp only [] at h
+            by_cases hk : (k == 0) = true
+            · simp only [hk, if_true, Option.some.injEq] at h
+              subst h
+              obtain ⟨q, hq, hqt⟩ := ih counts' more hr t ht
+              exact ⟨q, List.mem_cons_of_mem _ hq, hqt⟩
+            · simp only [hk] at h; cases h
+          | some a =>
+            rw [hc] at h
+            simp only [Option.some.injEq] at h
+            subst h
+            rcases List.mem_append.1 ht with ht | ht
+            · rw [List.eq_of_mem_replicate ht]
+              exact ⟨p, List.mem_cons_self, hc⟩
+            · obtain ⟨q, hq, hqt⟩ := ih counts' more hr t ht
+              exact ⟨q, List.mem_cons_of_mem _ hq, hqt⟩
+    · simp only [hv] at h
+      cases hc : callArgType m p with
+      | none => rw [hc] at h; cases h
+      | some a =>
+        rw [hc] at h
+        cases hr : callArgsExpected m rest counts with
+        | none => rw [hr] at h; cases h
+        | some more =>
+          rw [hr] at h
+          simp only [Bool.false_eq_true, if_false, Option.some.injEq] at h
+          subst h
+          rcases List.mem_cons.1 ht with rfl | ht
+          · exact ⟨p, List.mem_cons_self, hc⟩
+          · obtain ⟨q, hq, hqt⟩ := ih counts more hr t ht
+            exact ⟨q, List.mem_cons_of_mem _ hq, hqt⟩
+
+/-- the hypotheses are satisfiable: overriding `fun f(x: T, n: Number): T` of `Base<T>` in a class
+    that extends `Base<Long>` gives `(Long, Number): Long`; a function type parameter of the same
+    name shadows the superclass binding and is renamed instead; a call to `f` through the map
+    `T ↦ Float` expects `Float` and `Number`, a vararg `Array<T>` parameter two `Float`s -/
+example :
+    (let r := overrideSig [(tT, longK)] [] [] [tT, numK] tT; beqL r.1 [longK, numK] && beq r.2 longK) = true ∧
+    (let r := overrideSig [(tT, longK)] ["T"] [(tT, tparam "U" 0 none)] [tT, numK] tT
+     beqL r.1 [tparam "U" 0 none, numK] && beq r.2 (tparam "U" 0 none)) = true ∧
+    (match callArgsExpected [(tT, floatK)] [⟨tT, false⟩, ⟨numK, false⟩] [] with
+     | some l => beqL l [floatK, numK] | none => false) = true ∧
+    (match callArgsExpected [(tT, floatK)] [⟨numK, false⟩, ⟨mkP boxC [tT], true⟩] [2] with
+     | some l => beqL l [numK, floatK, floatK] | none => false) = true := by
   decide
 
 end Heph.Props.C01
